@@ -7,7 +7,7 @@ namespace Spowtd
 /-- days since 1970-01-01 of the civil date `y-m-d` -/
 def daysFromCivil (y m d : Int) : Int :=
   let y' := if m ≤ 2 then y - 1 else y
-  let era := (if y' ≥ 0 then y' else y' - 399) / 400
+  let era := y' / 400          -- `Int./` rounds towards −∞ for a positive divisor
   let yoe := y' - era * 400
   let mp := (m + 9) % 12
   let doy := (153 * mp + 2) / 5 + d - 1
@@ -17,7 +17,7 @@ def daysFromCivil (y m d : Int) : Int :=
 /-- civil date of a day number -/
 def civilFromDays (z0 : Int) : Int × Int × Int :=
   let z := z0 + 719468
-  let era := (if z ≥ 0 then z else z - 146096) / 146097
+  let era := z / 146097
   let doe := z - era * 146097
   let yoe := (doe - doe / 1460 + doe / 36524 - doe / 146096) / 365
   let y := yoe + era * 400
